@@ -20,9 +20,9 @@ META = dict(
               "{consume(1), consume(2), remaining} from 0..2 events of symbolic age, max_retries in [0,3]; every clock "
               "read may advance time by a solver real; translation validation of the transform (single thread, "
               "sequential scheduler, transformed == original on results and final fields)",
-        thorough="<= 3 pre-emptions for pairs; 3 threads with <= 2 pre-emptions for the triples {allow,allow,allow}, "
-                 "{fail,fail,fail}, {allow,fail,succ}, {consume,consume,remaining}, {consume,consume,consume}; the state "
-                 "property included",
+        thorough="<= 3 pre-emptions for pairs; 3 threads for the triples {allow,allow,allow}, {fail,fail,fail}, "
+                 "{allow,fail,succ} with <= 2 pre-emptions (1 from the closed state when failures are involved) and "
+                 "{consume,consume,remaining}, {consume,consume,consume} with <= 1 pre-emption; the state property included",
     ),
     assumptions=["pre-emption granularity is the source line (byte-code level pre-emption inside a line is outside the claim)",
                  "threading.Lock modelled by an owner-recording mutex (standard semantics; re-entrancy would deadlock in both)",
@@ -311,11 +311,13 @@ def jobs(tier):
     if not q:
         for ops in (["allow"] * 3, ["fail"] * 3, ["allow", "fail", "succ"]):
             for init in inits:
-                out.append(dict(name=f"breaker3:{'||'.join(ops)}:{init}", harness="rv.props.c17:h_breaker",
-                                params=dict(ops=ops, init=init, pb=2), max_wall_s=wall, weight=6))
+                # the closed state with failures is by far the largest tree: one pre-emption there, two elsewhere
+                pb3 = 1 if (init == "closed" and "fail" in ops) else 2
+                out.append(dict(name=f"breaker3:{'||'.join(ops)}:{init}:pb={pb3}", harness="rv.props.c17:h_breaker",
+                                params=dict(ops=ops, init=init, pb=pb3), max_wall_s=wall, weight=6))
         for ops in (["consume1", "consume1", "remaining"], ["consume1"] * 3):
-            out.append(dict(name=f"budget3:{'||'.join(ops)}", harness="rv.props.c17:h_budget",
-                            params=dict(ops=ops, pb=2), max_wall_s=wall, weight=6))
+            out.append(dict(name=f"budget3:{'||'.join(ops)}:pb=1", harness="rv.props.c17:h_budget",
+                            params=dict(ops=ops, pb=1), max_wall_s=wall, weight=6))
         for init in inits:
             out.append(dict(name=f"breaker:state||fail:{init}", harness="rv.props.c17:h_breaker",
                             params=dict(ops=["state", "fail"], init=init, pb=pb), max_wall_s=wall, weight=2))
